@@ -72,17 +72,18 @@ theorem addSegment_fit (sp : SegPkt) (r : Bytes) (ver mt seq : Nat) (hg : GoodEn
 
 /-! ### the loop -/
 
-theorem loop_src (b post M : Bytes) (adata asize dataPtr hdr dev stream ver mt seq : Nat)
+theorem loop_src {F : Type} (b post M : Bytes) (adata asize dataPtr hdr dev stream ver mt seq : Nat)
     (hV : CmpHeader_getVersion M hdr = some ver) (hMT : CmpHeader_getMessageType M hdr = some mt)
     (hSeq : CmpHeader_getSequenceCounter M hdr = some seq) (hver : ver ≠ 0) (hMlen : M.length < 2 ^ 63) :
     ∀ (fuel fuelLL : Nat) (t : Table) (pos : Nat) (outs : List PktOut) (r pre' : Bytes) (pkt : PktOut),
       M = pre' ++ r ++ post → b.drop pos = r → r.length < 2 ^ 31 → r.length / 16 + 1 ≤ fuel →
       r.length / 16 + 1 ≤ fuelLL → Ok t → Reg t →
-      ∃ res,
-        Decoder_decode_loop1 fuel ⟨tmap t⟩ M adata asize dataPtr outs hdr dev stream pre'.length r.length pkt =
-          some res ∧
+      ∃ res, ∃ outs' : List PktOut,
+        Decoder_decode_loop1 fuel ⟨tmap t⟩ M adata asize dataPtr (outs.map (Sum.inl : PktOut → PktOut ⊕ F)) hdr dev stream
+            pre'.length r.length pkt = some res ∧
         res.1 = ⟨tmap (decodeLoopLL b dev stream ver mt seq fuelLL t pos r.length (outs.map toPkt)).1⟩ ∧
-        res.2.1.map toPkt = (decodeLoopLL b dev stream ver mt seq fuelLL t pos r.length (outs.map toPkt)).2 := by
+        res.2.1 = outs'.map Sum.inl ∧
+        outs'.map toPkt = (decodeLoopLL b dev stream ver mt seq fuelLL t pos r.length (outs.map toPkt)).2 := by
   intro fuel
   induction fuel with
   | zero => intro fuelLL t pos outs r pre' pkt _ _ _ hf; omega
@@ -96,7 +97,7 @@ theorem loop_src (b post M : Bytes) (adata asize dataPtr hdr dev stream ver mt s
       · -- curSize = 0: the loop ends
         rw [hnil, loop_zero_cur]
         simp only [slt_zero 0 (by decide), Nat.lt_irrefl, decide_false, Bool.false_eq_true, if_false, pure]
-        exact ⟨_, rfl, rfl, rfl⟩
+        exact ⟨_, outs, rfl, rfl, rfl, rfl⟩
       · have hpos : 0 < r.length := Nat.pos_of_ne_zero hnil
         have hslice : slice b pos r.length = r := by
           unfold slice; rw [hr, List.take_length]
@@ -132,7 +133,8 @@ theorem loop_src (b post M : Bytes) (adata asize dataPtr hdr dev stream ver mt s
               { mt := mt, msg := r.take (16 + beAt r 14 2), version := ver, deviceId := dev, streamId := stream }
               hM2 hdrop (by rw [hl2]; omega) (by rw [hl2]; omega) (by rw [hl2]; omega) (ok_erase t _ hok)
               (reg_erase t _ hreg)
-            rw [hl1, hl2, List.map_append, List.map_singleton, toPkt_unseg] at hih
+            rw [hl1, hl2] at hih
+            simp only [List.map_append, List.map_singleton, toPkt_unseg] at hih
             rw [if_pos h0, ofMsg_payloadLength _ _ _ r hv]
             simp (disch := omega) only [slt_zero _ hr31, hpos, decide_true, if_true, sext_small _ hr31, hvp, hv, bind, pure,
               some_bind, Bool.not_true, Bool.false_eq_true, if_false, hsegd, h0, bne_self_eq_false, Bool.not_false,
@@ -149,7 +151,7 @@ theorem loop_src (b post M : Bytes) (adata asize dataPtr hdr dev stream ver mt s
               simp (disch := omega) only [slt_zero _ hr31, hpos, decide_true, if_true, sext_small _ hr31, hvp, hv, bind,
                 pure, some_bind, Bool.not_true, Bool.false_eq_true, if_false, hsegd, hseg1, hfirst, h4, beq_self_eq_true,
                 hV, hMT, hSeq, hctor, map_index, map_put, index_set]
-              exact ⟨_, rfl, rfl, rfl⟩
+              exact ⟨_, outs, rfl, rfl, rfl, rfl⟩
             · -- an intermediary or last segment
               have hfirst0 : ((byteAt r 12 &&& 0x0C) == 4) = false := by simpa using h4
               rw [if_neg h4]
@@ -161,7 +163,7 @@ theorem loop_src (b post M : Bytes) (adata asize dataPtr hdr dev stream ver mt s
                 simp (disch := omega) only [slt_zero _ hr31, hpos, decide_true, if_true, sext_small _ hr31, hvp, hv, bind,
                   pure, some_bind, Bool.not_true, Bool.false_eq_true, if_false, hsegd, hseg1, hfirst, hfirst0,
                   hV, hMT, hSeq, map_index, index_none t _ hfind, hadd, map_put, Bool.not_false, map_erase, erase_set]
-                exact ⟨_, rfl, rfl, rfl⟩
+                exact ⟨_, outs, rfl, rfl, rfl, rfl⟩
               | some sp =>
                 have hg := ok_find t _ sp hok hfind
                 have hrg := reg_find t _ sp hreg hfind
@@ -178,7 +180,7 @@ theorem loop_src (b post M : Bytes) (adata asize dataPtr hdr dev stream ver mt s
                     bind, pure, some_bind, Bool.not_true, Bool.false_eq_true, if_false, hsegd, hseg1, hfirst, hfirst0,
                     hV, hMT, hSeq, map_index, index_some t _ sp hfind, hadd, map_put, Bool.not_false, map_erase,
                     erase_set]
-                  exact ⟨_, rfl, rfl, rfl⟩
+                  exact ⟨_, outs, rfl, rfl, rfl, rfl⟩
                 | true =>
                   obtain ⟨hp16, hpfit⟩ := hfit rfl
                   have hidx : (t.set (dev, stream) sp').index (dev, stream) = (t.set (dev, stream) sp', sp') :=
@@ -190,28 +192,30 @@ theorem loop_src (b post M : Bytes) (adata asize dataPtr hdr dev stream ver mt s
                       hfirst0, hV, hMT, hSeq, map_index, index_some t _ sp hfind, hadd, map_put, Bool.not_false,
                       map_erase, erase_set, hidx, isAssembled_src, hasm, h12, tset_set,
                       getPacket_src sp' hp16 hpfit, Bool.true_eq_false]
-                    refine ⟨_, rfl, rfl, ?_⟩
-                    simp only [List.map_append, List.map_singleton, toPkt_assembled]
+                    refine ⟨_, outs ++ [(⟨sp'.mt, sp'.payload.take (16 + beAt sp'.payload 14 2), sp'.ver, dev, stream⟩ : PktOut)],
+                      rfl, rfl, ?_, ?_⟩
+                    · simp only [List.map_append, List.map_singleton]
+                    · simp only [List.map_append, List.map_singleton, toPkt_assembled]
                   · have hasm : (sp'.segType == 12) = false := by simpa using h12
                     simp (disch := omega) only [slt_zero _ hr31, hpos, decide_true, if_true, sext_small _ hr31, hvp, hv,
                       bind, pure, some_bind, Bool.not_true, Bool.false_eq_true, if_false, hsegd, hseg1, hfirst,
                       hfirst0, hV, hMT, hSeq, map_index, index_some t _ sp hfind, hadd, map_put, Bool.not_false,
                       map_erase, erase_set, hidx, isAssembled_src, hasm, h12, tset_set, Bool.true_eq_false]
-                    exact ⟨_, rfl, rfl, rfl⟩
+                    exact ⟨_, outs, rfl, rfl, rfl, rfl⟩
         · have hv' : msgValid r = false := by simpa using hv
           have hc : (!msgValid r) = true := by rw [hv']; rfl
           rw [if_pos hc]
           simp only [slt_zero _ hr31, hpos, decide_true, if_true, sext_small _ hr31, hvp, hv', bind, pure, some_bind,
             Bool.not_false, map_erase]
-          exact ⟨_, rfl, rfl, rfl⟩
+          exact ⟨_, outs, rfl, rfl, rfl, rfl⟩
 
 /-! ### `Decoder::decode` on a CMP frame -/
 
-theorem decode_frame_src (t : Table) (pre b post : Bytes) (fuel : Nat) (ext : Bytes → Nat → Nat → List PktOut)
+theorem decode_frame_src {F : Type} (t : Table) (pre b post : Bytes) (fuel : Nat) (ext : Bytes → Nat → Nat → List F)
     (hok : Ok t) (hreg : Reg t) (hpre : 0 < pre.length) (h8 : 8 ≤ b.length) (h0 : byteAt b 0 ≠ 0)
     (hlen : b.length < 2 ^ 31) (hmem : (pre ++ b ++ post).length < 2 ^ 63) (hf : b.length ≤ fuel) :
-    ∃ outs, Decoder_decode_obj fuel ⟨tmap t⟩ (pre ++ b ++ post) pre.length b.length ext =
-        some (⟨tmap (decodeLL t (some b)).1⟩, outs) ∧
+    ∃ outs : List PktOut, Decoder_decode_obj fuel ⟨tmap t⟩ (pre ++ b ++ post) pre.length b.length ext =
+        some (⟨tmap (decodeLL t (some b)).1⟩, outs.map Sum.inl) ∧
       outs.map toPkt = (decodeLL t (some b)).2 := by
   have hM : pre ++ b ++ post = (pre ++ b.take 8) ++ b.drop 8 ++ post := by
     simp only [List.append_assoc, List.take_append_drop]
@@ -226,7 +230,7 @@ theorem decode_frame_src (t : Table) (pre b post : Bytes) (fuel : Nat) (ext : By
     rw [rd_mid0 pre b post 1 (by omega), leAt_one]
   -- the table the loop starts with
   have hloop := fun t' (hok' : Ok t') (hreg' : Reg t') =>
-    loop_src b post (pre ++ b ++ post) pre.length b.length pre.length pre.length (beAt b 2 2) (byteAt b 5)
+    loop_src (F := F) b post (pre ++ b ++ post) pre.length b.length pre.length pre.length (beAt b 2 2) (byteAt b 5)
       (byteAt b 0) (byteAt b 4) (beAt b 6 2) (getVersion_mid pre b post h8) (getMessageType_mid pre b post h8)
       (getSequenceCounter_mid pre b post h8) h0 hmem fuel ((b.length - 8) / 16 + 2) t' 8 [] (b.drop 8)
       (pre ++ b.take 8) default hM rfl (by rw [hl2]; omega) (by rw [hl2]; omega) (by rw [hl2]; omega) hok' hreg'
@@ -235,21 +239,21 @@ theorem decode_frame_src (t : Table) (pre b post : Bytes) (fuel : Nat) (ext : By
   simp only [hpre0, Bool.false_eq_true, if_false, hlt8, decide_false, bind, pure, hrd, some_bind, hb0,
     getDeviceId_mid pre b post h8, getStreamId_mid pre b post h8, nonneg_one, hcur, Nat.one_mul, h0]
   by_cases hc : b.length - 8 = 0
-  · obtain ⟨res, hres, h1, h2⟩ := hloop (t.erase (beAt b 2 2, byteAt b 5)) (ok_erase t _ hok) (reg_erase t _ hreg)
-    rw [hl1, hl2] at hres
+  · obtain ⟨res, outs', hres, h1, hinl, h2⟩ := hloop (t.erase (beAt b 2 2, byteAt b 5)) (ok_erase t _ hok) (reg_erase t _ hreg)
+    rw [hl1, hl2, List.map_nil] at hres
     rw [hl2, List.map_nil] at h1 h2
     have hcb : ((b.length - 8) == 0) = true := by simpa using hc
     simp only [hcb, if_true, map_erase, some_bind, hres]
     rw [if_pos hc]
-    refine ⟨res.2.1, ?_, h2⟩
-    rw [← h1]
-  · obtain ⟨res, hres, h1, h2⟩ := hloop t hok hreg
-    rw [hl1, hl2] at hres
+    refine ⟨outs', ?_, h2⟩
+    rw [← h1, ← hinl]
+  · obtain ⟨res, outs', hres, h1, hinl, h2⟩ := hloop t hok hreg
+    rw [hl1, hl2, List.map_nil] at hres
     rw [hl2, List.map_nil] at h1 h2
     have hcb : ((b.length - 8) == 0) = false := by simpa using hc
     simp only [hcb, Bool.false_eq_true, if_false, some_bind, hres]
     rw [if_neg hc]
-    refine ⟨res.2.1, ?_, h2⟩
-    rw [← h1]
+    refine ⟨outs', ?_, h2⟩
+    rw [← h1, ← hinl]
 
 end AsamCmp.SrcDec
